@@ -19,6 +19,8 @@ const (
 	progNoCols = "0:c=OK"         // no columns
 	progFail   = "1:r,!fail"      // fails after one row
 	progTwo    = "1:r|1:r"        // two statements: not preparable
+	progEOF    = "1:r,!EOF"       // fails after one row with an error wrapping io.EOF
+	progUEOF   = "0:!UEOF"        // fails immediately with an error wrapping io.ErrUnexpectedEOF
 )
 
 type xletter struct {
@@ -62,13 +64,28 @@ func c06Alphabet() (full []xletter, core []xletter, errcore []xletter) {
 		B("p", ""), B("", "s"), B("p", "u"),
 		DS("s"), DS("u"), DP("p"), DP("u"), xl("Describe(bad kind)", "descBad", "", "", pgproto.Describe('X', "")),
 		CS("s"), CP("p"), CS("u"),
+		P("", progEOF, "fails-with-wrapped-EOF"), P("s", progUEOF, "fails-with-wrapped-UnexpectedEOF"), Q("1:!EOF", "error wrapping EOF"),
 		Q(progRows, "ok"), Q("1:!boom", "error"), Q(" ", "blank"),
 		xl("Oversized", "oversized", "", "", oversizedMsg()), xl("UnknownType", "unknown", "", "", pgproto.Msg('z', nil)),
 	}
+	xCloseCore = []xletter{P("", progRows, "rows"), B("", ""), CS(""), CP(""), E(""), DS(""), sync,
+		P("s", progRows, "rows"), B("p", "s"), CS("s"), CP("p"), E("p"), DP("p")}
 	core = full[:16]
 	errcore = []xletter{full[0], full[9], full[1], full[10], full[2], full[12], full[13], full[3]}
 	// errcore: Parse ok, Parse #perr, Bind ok, Bind u, Execute ok, Parse failing(unnamed), Flush, Sync
 	return
+}
+
+// xCloseCore: names that are closed and then used again (filled by c06Alphabet).
+var xCloseCore []xletter
+
+func xletterByName(ls []xletter, name string) xletter {
+	for _, l := range ls {
+		if l.Name == name {
+			return l
+		}
+	}
+	panic("no letter " + name)
 }
 
 type xstate struct {
@@ -91,6 +108,10 @@ func progLabel(p string) string {
 		return "nocols"
 	case progFail:
 		return "fail"
+	case progEOF:
+		return "eof"
+	case progUEOF:
+		return "ueof"
 	}
 	return p
 }
@@ -138,7 +159,7 @@ func simpleReply(prog string) (string, []string) {
 	switch prog {
 	case progRows:
 		return "TDCZ", []string{"parse:" + prog, "stmt:" + prog}
-	case "1:!boom":
+	case "1:!boom", "1:!EOF":
 		return "TEZ", []string{"parse:" + prog, "stmt:" + prog}
 	}
 	panic("simpleReply: unknown program " + prog)
@@ -218,28 +239,47 @@ func (s xstate) step(l xletter) []xbranch {
 			return []xbranch{{reply: "DC", cbs: []string{"stmt:" + prog}, next: s}}
 		case progNoCols:
 			return []xbranch{{reply: "C", cbs: []string{"stmt:" + prog}, next: s}}
-		case progFail:
+		case progFail, progEOF:
 			n := s
 			n.skip = true
 			return []xbranch{{reply: "DE", cbs: []string{"stmt:" + prog}, next: n}}
+		case progUEOF:
+			n := s
+			n.skip = true
+			return []xbranch{{reply: "E", cbs: []string{"stmt:" + prog}, next: n}}
 		}
 	case "closeS":
-		// C07 owns what Close does to the name: both outcomes are admitted here
-		out := []xbranch{{reply: "3", next: s}}
-		if si := sIdx(l.A); si >= 0 && s.stmt[si] != "" {
-			n := s
+		// after Close the name is unknown again ("referring to an unknown statement or portal is an error");
+		// the fate of portals already bound to the closed statement is not asserted (both admitted)
+		n := s
+		closed := ""
+		if si := sIdx(l.A); si >= 0 {
+			closed = s.stmt[si]
 			n.stmt[si] = ""
-			out = append(out, xbranch{reply: "3", next: n})
+		}
+		out := []xbranch{{reply: "3", next: n}}
+		if closed != "" {
+			for mask := 1; mask < 4; mask++ {
+				m := n
+				changed := false
+				for pi := 0; pi < 2; pi++ {
+					if mask&(1<<pi) != 0 && m.portal[pi] == closed {
+						m.portal[pi] = ""
+						changed = true
+					}
+				}
+				if changed {
+					out = append(out, xbranch{reply: "3", next: m, label: "portal-of-closed-statement-dropped"})
+				}
+			}
 		}
 		return out
 	case "closeP":
-		out := []xbranch{{reply: "3", next: s}}
-		if pi := pIdx(l.A); pi >= 0 && s.portal[pi] != "" {
-			n := s
+		n := s
+		if pi := pIdx(l.A); pi >= 0 {
 			n.portal[pi] = ""
-			out = append(out, xbranch{reply: "3", next: n})
 		}
-		return out
+		return []xbranch{{reply: "3", next: n}}
 	case "flush":
 		return []xbranch{{reply: "", next: s}}
 	case "sync":
